@@ -20,7 +20,7 @@ def validate_trace(module_dir, module, trace, timeout=1200, heap="4g"):
     try:
         for attempt in (1, 2):
             rc, out = run(["java", "-XX:+UseParallelGC", "-Xmx" + heap, "-cp", TLA_CP, "tlc2.TLC",
-                           "-workers", "1", "-metadir", os.path.join(md, str(attempt)),
+                           "-workers", "1", "-metadir", os.path.join(md, str(attempt)), "-noGenerateSpecTE",
                            "-config", module + ".cfg", module + ".tla"],
                           cwd=module_dir, env={"TRACE": trace}, timeout=timeout)
             verdict = None
@@ -45,7 +45,7 @@ def check_model(module_dir, module, cfgfile, workers=None, timeout=3600, heap="1
     t0 = time.time()
     try:
         rc, out = run(["java", "-XX:+UseParallelGC", "-Xmx" + heap, "-cp", TLA_CP, "tlc2.TLC",
-                       "-workers", str(workers or NCPU), "-metadir", md, "-config", cfgfile] + list(extra)
+                       "-workers", str(workers or NCPU), "-metadir", md, "-noGenerateSpecTE", "-config", cfgfile] + list(extra)
                       + [module + ".tla"], cwd=module_dir, timeout=timeout)
         m = _STATES.search(out)
         return {"rc": rc, "generated": int(m.group(1)) if m else 0, "distinct": int(m.group(2)) if m else 0,
